@@ -98,7 +98,7 @@ def run_case(case, env):
             out['viol'].append(viol('invalid-result', site, problems[:3]))
             return g
         if not set(before['V']) <= set(g['V']):
-            out['viol'].append(viol('variable-lost', site, sorted(set(before['V']) - set(g['V']))))
+            out['probes']['result_dropped_a_variable'] = 1     # not forbidden by the statement: observed, not judged
         L1 = rcfg.lang_upto(g, n)
         if L1 != Lbefore:
             diff = sorted(L1 ^ Lbefore, key=lambda w: (len(w), w))
